@@ -57,12 +57,10 @@ impl FromMetaOptions {
     fn from_word(&self) -> Option<Cow<'_, Callable>> {
         self.from_word.as_ref().map(Cow::Borrowed).or_else(|| {
             if let Data::Enum(ref variants) = self.base.data {
-                // The first variant which has `word` set to `true`.
+                // The first non-skipped variant which has `word` set to `true`.
                 // This assumes that validation has prevented multiple variants
                 // from claiming `word`.
-                let variant = variants
-                    .iter()
-                    .find(|v| v.word.map(|x| *x).unwrap_or_default())?;
+                let variant = variants.iter().find(|v| v.is_word_variant())?;
                 let variant_ident = &variant.ident;
                 let closure: syn::ExprClosure = parse_quote! {
                     || ::darling::export::Ok(Self::#variant_ident)
